@@ -20,9 +20,10 @@ CONFIG = dict(
     ],
     kani=[
         dict(name="c14_sleep"), dict(name="c14_usleep"), dict(name="c14_nanosleep"),
-        dict(name="c14_poll_timeout", bounded="timeout <= 64 ms (<= 12 wait rounds fully unwound)"),
+        dict(name="c14_poll_timeout", bounded="timeout <= 143 ms (<= 12 wait rounds fully unwound)"),
         dict(name="c14_poll_infinite", bounded="<= 12 wait rounds"),
-        dict(name="c14_select_timeout", bounded="timeout <= 40 000 us (<= 12 wait rounds fully unwound)"),
+        dict(name="c14_poll_long", bounded="<= 12 wait rounds"),
+        dict(name="c14_select_timeout", bounded="timeout <= 143 000 us (<= 12 wait rounds fully unwound)"),
         dict(name="c14_select_seconds", bounded="<= 12 wait rounds"),
         dict(name="c14_select_invalid", panic_is_violation=True),
         dict(name="c14_select_infinite", bounded="<= 12 wait rounds"),
@@ -39,9 +40,9 @@ CONFIG = dict(
         "clock: arbitrary monotone u64",
         "pthread_cond_timedwait deadline before 2096",
     ],
-    bounds="conversions and EINVAL: full domain, loop-free; slice loops: poll <= 64 ms, select <= 40 000 us, <= 12 wait rounds / <= 9 clock readings (enforced by kani::assume in the environment so unwinding assertions hold)",
+    bounds="conversions and EINVAL: full domain, loop-free; slice loops: <= 12 wait rounds (143 ms of requested waiting) / <= 9 clock readings; within that the input domain is complete: poll 0..143 ms exact, >= 144 ms and negative not yet returned; select 0..143 000 us exact, longer (every tv_sec up to i64::MAX) and NULL not yet returned (enforced by kani::assume in the environment so unwinding assertions hold)",
     manifest=dict(
-        text="Proof for the conversions and the EINVAL cases (full input domain, loop-free): sleep/usleep/nanosleep hand the event loop exactly the requested time in the requested unit and return 0, invalid timespec/timeval/abstime are rejected with the native error and never wait or panic. Bounded for the slice loops over a symbolic monotone clock: with nothing ready, poll/select return 0 only after the waits they requested cover the requested time in the requested unit (ms for poll, us for select) and no more than that (+ < 1 ms for select), infinite timeouts never give up; timed_wait_just returns only at or after entry + d with slices <= 10 ms; pthread_cond_timedwait reports ETIMEDOUT only once the absolute deadline has passed. Tests sleep 1 ms / 1 s once and accept any duration above the lower bound.",
+        text="Proof for the conversions and the EINVAL cases (full input domain, loop-free): sleep/usleep/nanosleep hand the event loop exactly the requested time in the requested unit and return 0; an invalid timespec (nanosleep), a negative timeval (select) or an invalid abstime (pthread_cond_timedwait) is rejected with the native error and never waits or panics. Bounded stand-in for the slice loops (stated per unit, never counted as proved): with nothing ready, poll(t <= 143 ms) and select(tv <= 143 000 us) return 0 only after the waits they requested cover the requested time in the requested unit (ms for poll, us for select) and no more than that (+ < 1 ms for select, which works in whole milliseconds); poll(t >= 144 ms up to c_int::MAX), select(every longer tv up to tv_sec = i64::MAX) and infinite timeouts have not returned after 12 wait rounds (143 ms of requested waiting); timed_wait_just returns only at or after entry + d with slices <= 10 ms; pthread_cond_timedwait reports ETIMEDOUT only once the absolute deadline has passed on a symbolic monotone clock. Tests sleep 1 ms / 1 s once and accept any duration above the lower bound; select/poll/cond_timedwait are never called with a timeout.",
         note="Partial claim: wall-clock slack is not decidable by a contract over one call. Trusted: wait_event recorder, symbolic clock, `nothing ready` inner calls, plain-thread caller, shims. Bounds as stated per unit in the evidence.",
         technique="contract-based deductive verification: Kani harness contracts on the real hooks (full-domain for conversions, bounded unwinding with a symbolic clock for slice loops)",
     ),
@@ -49,9 +50,64 @@ CONFIG = dict(
 )
 
 
-def native_replay(v, path):
-    ob = v["obligation"]
-    test = "c14_native_select_negative" if ("einval" in ob or "invalid" in ob or "safety" in ob) else "c14_native_select_units"
-    rc, out = native.run_test("C14", "native/c14_replay.rs", "core/src/syscall/unix/select.rs", test, timeout=300)
-    d = native.verdict(rc, out, dict(test=test))
+def _ints(v):
+    """the verifier's concrete values, in kani::any() order, as signed 64-bit / 32-bit integers"""
+    out = []
+    for e in (v.get("playback") or []):
+        b = e.get("bytes")
+        if b:
+            out.append(int.from_bytes(bytes(b), "little", signed=True))
+    return out
+
+
+def _run(kind, a, b):
+    rc, out = native.run_test("C14", "native/c14_replay.rs", "core/src/syscall/unix/select.rs", "c14_native_replay",
+                              env={"VERIF_C14_KIND": kind, "VERIF_C14_A": str(a), "VERIF_C14_B": str(b)}, timeout=600)
+    d = native.verdict(rc, out, dict(kind=kind, a=a, b=b))
+    if d["reproduced"] is None and any("VERIF-REPLAY-UNDECIDED" in l for l in d["lines"]):
+        d["note"] = "native timing cannot discriminate this counterexample from scheduling noise"
     return d
+
+
+def native_replay(v, path):
+    """Feeds the verifier's counterexample through the crate's real hooked entry point on a real event loop.
+    Invalid-argument scenarios are decisive (the real code either rejects exactly this input or it does not).
+    Timing scenarios only ever confirm: early return is definite, late return only far beyond scheduling noise."""
+    h, vals = v["harness"], _ints(v)
+    if h == "c14_select_invalid" and len(vals) >= 2:
+        d = _run("select_invalid", vals[0], vals[1]); d["decisive"] = True
+        return d
+    if h == "c14_select_timeout" and vals:
+        d = _run("select_time", 0, vals[0]); d["decisive"] = False
+        if d["reproduced"] is None:
+            # a unit error scales with the request: the same call with 30 ms makes it visible natively
+            d2 = _run("select_time", 0, 30000); d2["decisive"] = False
+            d2["first_attempt_with_the_counterexample_itself"] = d
+            d2["note"] = "counterexample value scaled to 30 000 us so that the excess exceeds scheduling noise"
+            return d2
+        return d
+    if h == "c14_select_seconds" and len(vals) >= 2 and 0 <= vals[0] <= 1 and 0 <= vals[1] <= 999_999:
+        d = _run("select_time", vals[0], vals[1]); d["decisive"] = False  # an early return is definite
+        return d
+    if h == "c14_poll_long" and vals and 144 <= vals[0] <= 1500:
+        d = _run("poll_time", vals[0], 0); d["decisive"] = False
+        return d
+    if h == "c14_poll_timeout" and vals:
+        d = _run("poll_time", vals[0], 0); d["decisive"] = False
+        return d
+    if h == "c14_nanosleep" and len(vals) >= 2:
+        sec, nsec = vals[0], vals[1]
+        if sec < 0 or nsec < 0 or nsec > 999_999_999:
+            d = _run("nanosleep_invalid", sec, nsec); d["decisive"] = "einval" in v["obligation"]
+            return d
+        if sec <= 1:
+            d = _run("nanosleep_time", sec, nsec); d["decisive"] = False
+            return d
+        return None  # a wait of more than a second is not replayed natively
+    if h == "c14_usleep" and vals and 0 <= vals[0] <= 1_500_000:
+        d = _run("usleep_time", vals[0], 0); d["decisive"] = False
+        return d
+    if h == "c14_sleep" and vals and 0 <= vals[0] <= 1:
+        d = _run("sleep_time", vals[0], 0); d["decisive"] = False
+        return d
+    return None
